@@ -72,6 +72,13 @@ fn vcmp(a: &V, b: &V) -> Option<Ordering> {
     })
 }
 
+/// could a text be one of the "strings that can automatically be converted" to a number? (whole
+/// text a number in some spelling — `inf`, `nan`, `1e3` included — or any digit / dot inside it);
+/// everything else is certainly not a number
+fn maybe_numeric_text(s: &str) -> bool {
+    s.trim().parse::<f64>().is_ok() || s.chars().any(|c| c.is_numeric() || c == '.')
+}
+
 fn of_json(j: &J) -> V {
     match j {
         J::Null => V::None,
@@ -146,15 +153,20 @@ fn eval(e: &E, doc: &[(String, J)]) -> R {
                             return if z >= i64::MIN as i128 && z <= i64::MAX as i128 { Val(V::Int(z as i64)) } else { Unknown };
                         }
                     }
-                    let fa = match &a {
-                        V::Int(x) => *x as f64,
-                        V::Float(x) => *x,
-                        _ => return Err,
+                    // operands: numbers; a string that cannot be read as a number is a wrong type, a
+                    // string that might be (digits, a dot, `inf`, `nan` …) is C08's subject: open here
+                    let operand = |v: &V| -> Result<Option<f64>, ()> {
+                        match v {
+                            V::Int(x) => Ok(Some(*x as f64)),
+                            V::Float(x) => Ok(Some(*x)),
+                            V::Str(s) if maybe_numeric_text(s) => Ok(None),
+                            _ => Result::Err(()),
+                        }
                     };
-                    let fb = match &b {
-                        V::Int(x) => *x as f64,
-                        V::Float(x) => *x,
-                        _ => return Err,
+                    let (fa, fb) = match (operand(&a), operand(&b)) {
+                        (Result::Err(()), _) | (_, Result::Err(())) => return Err,
+                        (Ok(Some(x)), Ok(Some(y))) => (x, y),
+                        _ => return Unknown,
                     };
                     let r = match *op {
                         "+" => fa + fb,
@@ -550,9 +562,482 @@ fn check_int_boundaries(ctx: &mut Ctx) {
     }
 }
 
+// ---------------------------------------------------------------------------------------------
+// post-agg-expression: expressions evaluated on the rows of a TABLE (after an aggregation or a
+// sort).  "A row on which the expression fails is dropped on its own": with R = the rows that the
+// prefix `P` prints, `P | stage…` must print, for every row of R, what the reference evaluator
+// gives on that row (value → the row plus the new field, `where` → kept / removed, failure → that
+// row missing) and nothing else may be missing, added or — after an explicit sort — reordered.
+// ---------------------------------------------------------------------------------------------
+
+#[derive(Clone, Debug)]
+enum Cell {
+    Orig(J), // printed by the prefix query
+    Comp(V), // computed by the reference evaluator
+}
+
+#[derive(Clone, Copy, PartialEq, Debug)]
+enum Presence {
+    Present,
+    Gone,
+    Open, // the documented semantics leave the outcome on this row open
+}
+
+#[derive(Clone, Debug)]
+struct PaRow {
+    ident: Vec<J>,
+    cells: Vec<(String, Cell)>,
+    presence: Presence,
+    /// gone because the expression FAILED on the row (not because a condition was false)
+    failed: bool,
+}
+
+enum PaStage {
+    Where(E),
+    Field(E, &'static str),
+}
+
+struct PaCols {
+    /// columns holding group keys / raw fields of mixed types
+    mixed: Vec<&'static str>,
+    /// columns holding aggregate results
+    nums: Vec<&'static str>,
+}
+
+fn pa_col(r: &mut Rng, p: &PaCols, prefer_mixed: usize) -> E {
+    if (r.chance(prefer_mixed) || p.nums.is_empty()) && !p.mixed.is_empty() {
+        E::Col(*r.pick(&p.mixed))
+    } else if !p.nums.is_empty() {
+        E::Col(*r.pick(&p.nums))
+    } else {
+        E::Col("missing")
+    }
+}
+
+fn pa_operand(r: &mut Rng, p: &PaCols) -> E {
+    let x = r.below(100);
+    if x < 75 {
+        pa_col(r, p, 70)
+    } else if x < 96 {
+        E::Int(r.range(0, 12))
+    } else if x < 98 {
+        E::Col("missing")
+    } else {
+        match r.below(3) {
+            0 => E::Null,
+            1 => E::Str("abc"),
+            _ => E::Bool(true),
+        }
+    }
+}
+
+fn pa_num(r: &mut Rng, d: usize, p: &PaCols) -> E {
+    if d == 0 || r.chance(25) {
+        return pa_operand(r, p);
+    }
+    match r.below(10) {
+        0..=4 => E::Bin(*r.pick(&["+", "-", "*", "/"]), Box::new(pa_num(r, d - 1, p)), Box::new(pa_num(r, d - 1, p))),
+        5 => E::Bin(*r.pick(&["+", "-", "*", "/"]), Box::new(pa_col(r, p, 80)), Box::new(E::Int(r.range(0, 9)))),
+        6 => E::Call(*r.pick(&["abs", "ceil", "floor", "round"]), vec![pa_num(r, d - 1, p)]),
+        7 | 8 => E::If(Box::new(pa_bool(r, d - 1, p)), Box::new(pa_num(r, d - 1, p)), Box::new(pa_num(r, d - 1, p))),
+        _ => E::Call("length", vec![pa_col(r, p, 80)]),
+    }
+}
+
+fn pa_bool(r: &mut Rng, d: usize, p: &PaCols) -> E {
+    if d == 0 || r.chance(40) {
+        return match r.below(12) {
+            // a group key as the condition itself: fails unless it is a boolean
+            0 => pa_col(r, p, 100),
+            1 => E::Not(Box::new(pa_col(r, p, 100))),
+            2..=6 => E::Bin(*r.pick(&["==", "!=", "<>", "<", "<=", ">", ">="]), Box::new(pa_num(r, 0, p)), Box::new(pa_num(r, 0, p))),
+            7 | 8 => E::Bin(*r.pick(&["==", "<", ">", "!="]), Box::new(pa_col(r, p, 90)), Box::new(E::Str(*r.pick(&["a", "abc", "zed", "", "true"])))),
+            9 => E::Call(*r.pick(&["isNull", "isEmpty", "isBlank"]), vec![if r.chance(6) { E::Col("missing") } else { pa_col(r, p, 80) }]),
+            10 => E::Call("contains", vec![pa_col(r, p, 90), E::Str(*r.pick(&["a", "e", "1", ""]))]),
+            _ => E::Bin(*r.pick(&["==", "<", ">="]), Box::new(pa_col(r, p, 60)), Box::new(pa_col(r, p, 60))),
+        };
+    }
+    match r.below(5) {
+        0 | 1 => E::Bin("and", Box::new(pa_bool(r, d - 1, p)), Box::new(pa_bool(r, d - 1, p))),
+        2 | 3 => E::Bin("or", Box::new(pa_bool(r, d - 1, p)), Box::new(pa_bool(r, d - 1, p))),
+        _ => E::Not(Box::new(pa_bool(r, d - 1, p))),
+    }
+}
+
+fn pa_stage(r: &mut Rng, p: &PaCols, fresh: &[&'static str]) -> PaStage {
+    let d = 1 + r.below(2);
+    match r.below(10) {
+        0..=3 => PaStage::Where(pa_bool(r, d, p)),
+        x => {
+            let e = match x {
+                4..=7 => pa_num(r, d, p),
+                8 => pa_bool(r, d, p),
+                _ => match r.below(3) {
+                    0 => E::Call("concat", vec![pa_col(r, p, 70), E::Str(*r.pick(&["-", "x", ""])), pa_col(r, p, 30)]),
+                    1 => E::Call("substring", vec![pa_col(r, p, 90), E::Int(r.range(0, 3)), E::Int(r.range(0, 6))]),
+                    _ => E::If(Box::new(pa_bool(r, 1, p)), Box::new(pa_col(r, p, 70)), Box::new(E::Str("other"))),
+                },
+            };
+            // the result goes into a new column, or replaces an aggregate column (never a key)
+            let over: Vec<&'static str> = p.nums.iter().copied().filter(|c| *c != "id").collect();
+            let name = if r.chance(12) && !over.is_empty() { *r.pick(&over) } else { *r.pick(fresh) };
+            PaStage::Field(e, name)
+        }
+    }
+}
+
+fn pa_cols_of(e: &E, out: &mut Vec<&'static str>) {
+    match e {
+        E::Col(c) => out.push(c),
+        E::Bin(_, l, r) => {
+            pa_cols_of(l, out);
+            pa_cols_of(r, out);
+        }
+        E::Not(x) => pa_cols_of(x, out),
+        E::If(a, b, c) => {
+            pa_cols_of(a, out);
+            pa_cols_of(b, out);
+            pa_cols_of(c, out);
+        }
+        E::Call(_, args) => args.iter().for_each(|a| pa_cols_of(a, out)),
+        _ => {}
+    }
+}
+
+fn pa_v_to_j(v: &V) -> J {
+    match v {
+        V::None | V::Other => J::Null,
+        V::Bool(b) => J::Bool(*b),
+        V::Int(i) => J::Int(*i),
+        V::Float(f) => J::Float(*f),
+        V::Str(s) => J::Str(s.clone()),
+    }
+}
+
+/// the reference: one stage applied to one table row. `ident_cols`: the columns whose printed
+/// `null` is a real None (group keys); a printed null in any other column of the prefix's output
+/// may also be a NaN / infinity (JSON has no spelling for them): an expression reading it is open.
+fn pa_apply(st: &PaStage, row: &mut PaRow, ident_cols: &[&'static str]) {
+    if row.presence != Presence::Present {
+        return; // gone stays gone; open stays open
+    }
+    let e = match st {
+        PaStage::Where(e) | PaStage::Field(e, _) => e,
+    };
+    let mut used = vec![];
+    pa_cols_of(e, &mut used);
+    let ambiguous = row.cells.iter().any(|(n, c)| matches!(c, Cell::Orig(J::Null)) && !ident_cols.contains(&n.as_str()) && used.contains(&n.as_str()));
+    let doc: Vec<(String, J)> = row
+        .cells
+        .iter()
+        .map(|(n, c)| {
+            (
+                n.clone(),
+                match c {
+                    Cell::Orig(j) => j.clone(),
+                    Cell::Comp(v) => pa_v_to_j(v),
+                },
+            )
+        })
+        .collect();
+    let res = if ambiguous { R::Unknown } else { eval(e, &doc) };
+    match (st, res) {
+        (_, R::Unknown) | (PaStage::Field(..), R::Val(V::Other)) => row.presence = Presence::Open,
+        (_, R::Err) => {
+            row.presence = Presence::Gone;
+            row.failed = true;
+        }
+        (PaStage::Where(_), R::Val(V::Bool(true))) => {}
+        (PaStage::Where(_), R::Val(V::Bool(false))) => row.presence = Presence::Gone,
+        // not a boolean: the condition fails on this row
+        (PaStage::Where(_), R::Val(_)) => {
+            row.presence = Presence::Gone;
+            row.failed = true;
+        }
+        (PaStage::Field(_, name), R::Val(v)) => match row.cells.iter_mut().find(|c| c.0 == *name) {
+            Some(c) => c.1 = Cell::Comp(v),
+            None => row.cells.push((name.to_string(), Cell::Comp(v))),
+        },
+    }
+}
+
+/// does a printed row equal the expected one?  `absent_is_null`: a table of raw records prints a
+/// field that a record does not have as null
+fn pa_row_eq(exp: &[(String, Cell)], got: &[(String, J)], absent_is_null: bool) -> bool {
+    let cell_ok = |c: &Cell, g: Option<&J>| -> bool {
+        match (c, g) {
+            (Cell::Orig(j), Some(g)) => j == g,
+            (Cell::Comp(v), Some(g)) => same(v, g),
+            (Cell::Orig(j), None) => absent_is_null && *j == J::Null,
+            (Cell::Comp(v), None) => absent_is_null && same(v, &J::Null),
+        }
+    };
+    for (n, c) in exp {
+        if !cell_ok(c, got.iter().find(|kv| kv.0 == *n).map(|kv| &kv.1)) {
+            return false;
+        }
+    }
+    for (n, g) in got {
+        if !exp.iter().any(|c| c.0 == *n) && !(absent_is_null && *g == J::Null) {
+            return false;
+        }
+    }
+    true
+}
+
+fn pa_table(stdout: &[u8]) -> Option<Vec<Vec<(String, J)>>> {
+    let text = String::from_utf8_lossy(stdout);
+    match canon::parse(text.trim_end()).ok()? {
+        J::Arr(rows) => rows
+            .iter()
+            .map(|row| match canon::normalize(row) {
+                J::Obj(kvs) => Some(kvs),
+                _ => None,
+            })
+            .collect(),
+        _ => None,
+    }
+}
+
+fn pa_ident(row: &[(String, J)], ident_cols: &[&'static str]) -> Vec<J> {
+    ident_cols.iter().map(|c| row.iter().find(|kv| kv.0 == *c).map(|kv| kv.1.clone()).unwrap_or(J::Null)).collect()
+}
+
+/// group keys of every type: the expression of the stage under test succeeds on some groups only
+const PA_KEYS_NUM: &[&str] = &["0", "1", "2", "3", "-4", "7", "2.5", "-0.5", "100", "1e300", "9007199254740993"];
+const PA_KEYS_OTHER: &[&str] = &["null", "null", "true", "false", "true", "false", "\"abc\"", "\"\"", "\" \"", "\"héllo\"", "\"true\"", "\"None\"", "\"zed\"", "\"a\"", "[1,2]", "[]", "{\"a\":1}", "{\"b\":{\"c\":[true]},\"a\":\"x\"}"];
+/// strings that the lenient number conversion may or may not accept (outcome open in arithmetic)
+const PA_KEYS_NUMLIKE: &[&str] = &["\"12\"", "\"z9\"", "\"1,000\"", "\"inf\"", "\"-3.5\""];
+
+fn pa_docs(r: &mut Rng, raw: bool) -> (Vec<u8>, usize) {
+    // the key values of this case: all numbers, no number at all, or (mostly) a mixture
+    let style = r.below(10);
+    let npool = 1 + r.below(9);
+    let mut pool: Vec<&str> = vec![];
+    for _ in 0..npool {
+        let v = match style {
+            0 | 1 => *r.pick(PA_KEYS_NUM),
+            2 => *r.pick(PA_KEYS_OTHER),
+            _ => match r.below(20) {
+                0..=8 => *r.pick(PA_KEYS_NUM),
+                9..=18 => *r.pick(PA_KEYS_OTHER),
+                _ => *r.pick(PA_KEYS_NUMLIKE),
+            },
+        };
+        pool.push(v);
+    }
+    let ndocs = if r.chance(3) { 0 } else { 1 + r.below(20) };
+    let mut input = vec![];
+    for id in 0..ndocs {
+        let mut m = vec![format!("\"id\":{}", id)];
+        // a raw table prints absent fields as null: keep explicit nulls out of raw records, so that
+        // a printed null there always means "no such field"
+        let mut put = |name: &str, v: &str, m: &mut Vec<String>| {
+            if !(raw && v == "null") {
+                m.push(format!("\"{}\":{}", name, v));
+            }
+        };
+        if r.chance(88) {
+            put("k", *r.pick(&pool), &mut m);
+        }
+        if r.chance(85) {
+            put("g", *r.pick(&["0", "1", "1", "\"a\"", "null", "true"]), &mut m);
+        }
+        if r.chance(85) {
+            put("flag", *r.pick(&["true", "false", "true", "false", "null", "\"yes\"", "1"]), &mut m);
+        }
+        if r.chance(90) {
+            let v = match r.below(12) {
+                0 => "\"abc\"".to_string(),
+                1 => "null".to_string(),
+                2 | 3 => format!("{}.{}", r.range(-40, 40), *r.pick(&[5, 25, 75, 125])),
+                _ => format!("{}", r.range(-9, 30)),
+            };
+            put("v", &v, &mut m);
+        }
+        input.extend(format!("{{{}}}\n", m.join(",")).into_bytes());
+    }
+    (input, ndocs)
+}
+
+fn pa_render_stage(st: &PaStage, r: &mut Rng) -> String {
+    match st {
+        PaStage::Where(e) => format!("where {}", render(e, r)),
+        PaStage::Field(e, n) => format!("{} as {}", render(e, r), n),
+    }
+}
+
+fn check_post_agg(ctx: &mut Ctx) {
+    const FAM: &str = "post-agg-expression";
+    let n = ctx.budget(1600, 60000);
+    for _ in 0..n {
+        let mut r = ctx.rng.fork();
+        let raw = r.chance(15);
+        let (input, _) = pa_docs(&mut r, raw);
+        // ---- the prefix P: an aggregation (optionally followed by a row stage and/or an explicit
+        // sort), or a sort of the raw records — either way a table
+        let mut cols = PaCols { mixed: vec![], nums: vec![] };
+        let ident_cols: Vec<&'static str>;
+        let mut prefix = String::from("* | json");
+        let mut ordered = false;
+        if raw {
+            cols.mixed = vec!["k", "g", "flag", "v"];
+            cols.nums = vec!["id"];
+            ident_cols = vec!["id"];
+            prefix.push_str(&format!(" | sort by {}{}", *r.pick(&["k", "g", "flag", "v", "id", "k, v", "flag, id"]), *r.pick(&["", " asc", " desc"])));
+            ordered = true;
+        } else {
+            let keys: Vec<&'static str> = match r.below(12) {
+                0 => vec![],
+                1..=5 => vec!["k"],
+                6 | 7 => vec!["k", "g"],
+                8 => vec!["flag"],
+                9 => vec!["flag", "k"],
+                10 => vec!["g"],
+                _ => vec!["g", "flag"],
+            };
+            const FUNS: &[(&str, &str)] = &[("count", "_count"), ("count as c", "c"), ("sum(v) as s", "s"), ("sum(v)", "_sum"), ("max(v) as m", "m"), ("min(v) as mn", "mn"), ("avg(v) as a", "a"), ("count_distinct(v) as d", "d")];
+            let mut funs: Vec<(&str, &'static str)> = vec![];
+            for _ in 0..1 + r.below(3) {
+                let f = *r.pick(FUNS);
+                if !funs.iter().any(|g| g.1 == f.1) {
+                    funs.push(f);
+                }
+            }
+            prefix.push_str(&format!(" | {}", funs.iter().map(|f| f.0).collect::<Vec<_>>().join(", ")));
+            if !keys.is_empty() {
+                prefix.push_str(&format!(" by {}", keys.join(", ")));
+            }
+            cols.mixed = keys.clone();
+            cols.nums = funs.iter().map(|f| f.1).collect();
+            ident_cols = keys;
+            // a row stage inside the prefix (its own outcome is judged when it is the stage under test)
+            if r.chance(20) {
+                let st = pa_stage(&mut r, &cols, &["r0"]);
+                if let PaStage::Field(_, name) = &st {
+                    if !cols.nums.contains(name) {
+                        cols.nums.push(*name);
+                    }
+                }
+                prefix.push_str(&format!(" | {}", pa_render_stage(&st, &mut r)));
+            }
+            if r.chance(50) {
+                let mut all: Vec<&'static str> = cols.mixed.clone();
+                all.extend(cols.nums.iter());
+                let mut by = vec![*r.pick(&all)];
+                if r.chance(35) {
+                    let c = *r.pick(&all);
+                    if !by.contains(&c) {
+                        by.push(c);
+                    }
+                }
+                prefix.push_str(&format!(" | sort by {}{}", by.join(", "), *r.pick(&["", " asc", " desc"])));
+                ordered = true;
+            }
+        }
+        // ---- the stage(s) under test
+        let nst = if r.chance(60) { 1 } else { 2 };
+        let mut stages: Vec<PaStage> = vec![];
+        let mut q2 = prefix.clone();
+        for i in 0..nst {
+            let st = pa_stage(&mut r, &cols, if i == 0 { &["r", "t"] } else { &["j", "u"] });
+            if let PaStage::Field(_, name) = &st {
+                if !cols.nums.contains(name) {
+                    cols.nums.push(*name);
+                }
+            }
+            q2.push_str(&format!(" | {}", pa_render_stage(&st, &mut r)));
+            stages.push(st);
+        }
+        let key = ckey(&q2, &input);
+        let info = serde_json::json!({"prefix": prefix, "query": q2, "input": String::from_utf8_lossy(&input), "ordered": ordered});
+        let p = imp::run(&prefix, &input, "json", 30);
+        let c = run_both(ctx, &q2, &input);
+        let ran = |x: &imp::ImplRun| x.compiled && x.panicked.is_none() && !x.hung;
+        if !ran(&p) || !ran(&c.imp) {
+            ctx.case(FAM, &key, "viol", serde_json::json!({"class": "", "what": "a well-formed pipeline did not run", "prefix_compile_err": p.compile_err, "compile_err": c.imp.compile_err, "panic": c.imp.panicked.clone().or(p.panicked.clone()), "hung": p.hung || c.imp.hung, "case": info}));
+            continue;
+        }
+        let (rows, got) = match (pa_table(&p.stdout), pa_table(&c.imp.stdout)) {
+            (Some(a), Some(b)) => (a, b),
+            _ => {
+                ctx.case(FAM, &key, "viol", serde_json::json!({"class": "", "what": "the output is not a JSON array of objects", "prefix_out": String::from_utf8_lossy(&p.stdout), "got": String::from_utf8_lossy(&c.imp.stdout), "case": info}));
+                continue;
+            }
+        };
+        // ---- expectation: the reference evaluator on every row of R
+        let mut exp: Vec<PaRow> = rows
+            .iter()
+            .map(|kvs| PaRow {
+                ident: pa_ident(kvs, &ident_cols),
+                cells: kvs.iter().filter(|kv| !(raw && kv.1 == J::Null)).map(|kv| (kv.0.clone(), Cell::Orig(kv.1.clone()))).collect(),
+                presence: Presence::Present,
+                failed: false,
+            })
+            .collect();
+        for row in exp.iter_mut() {
+            for st in &stages {
+                pa_apply(st, row, &ident_cols);
+            }
+        }
+        let show = |row: &PaRow| format!("{:?}", ident_cols.iter().zip(row.ident.iter()).map(|(c, v)| format!("{}={}", c, super::c03::to_json(v))).collect::<Vec<_>>());
+        let mut problem: Option<String> = None;
+        // identities are unique in R (group keys / record ids): every printed row belongs to one row of R
+        let got_ids: Vec<Vec<J>> = got.iter().map(|g| pa_ident(g, &ident_cols)).collect();
+        for (i, id) in got_ids.iter().enumerate() {
+            if !exp.iter().any(|e| e.ident == *id) {
+                problem = Some(format!("printed row {} does not belong to any row of the table it was computed from", i));
+            } else if got_ids[..i].contains(id) {
+                problem = Some(format!("printed row {} repeats an earlier row", i));
+            }
+        }
+        if problem.is_none() {
+            for e in &exp {
+                let at = got_ids.iter().position(|id| *id == e.ident);
+                match (e.presence, at) {
+                    (Presence::Open, _) => {}
+                    (Presence::Gone, None) => {}
+                    (Presence::Gone, Some(_)) => problem = Some(format!("the row {} should not be printed: the expression fails on it (or the condition is not true)", show(e))),
+                    (Presence::Present, None) => problem = Some(format!("the row {} is missing although the stage(s) succeed on it (a failure on ANOTHER row must not remove it)", show(e))),
+                    (Presence::Present, Some(i)) => {
+                        if !pa_row_eq(&e.cells, &got[i], raw) {
+                            problem = Some(format!("the row {} is printed as {:?}, the documented semantics give {:?}", show(e), got[i], e.cells));
+                        }
+                    }
+                }
+                if problem.is_some() {
+                    break;
+                }
+            }
+        }
+        // after an explicit sort the table has a determined order: the surviving rows keep it
+        if problem.is_none() && ordered {
+            let order: Vec<usize> = got_ids.iter().filter_map(|id| exp.iter().position(|e| e.ident == *id)).collect();
+            if order.windows(2).any(|w| w[0] >= w[1]) {
+                problem = Some(format!("the rows come out in another order than the sorted table had (positions in the table: {:?})", order));
+            }
+        }
+        let count = |f: &dyn Fn(&PaRow) -> bool| exp.iter().filter(|e| f(e)).count();
+        let shape = format!("{} rows, {} failed, {} filtered, {} kept, {} open", exp.len(), count(&|e| e.failed), count(&|e| e.presence == Presence::Gone && !e.failed), count(&|e| e.presence == Presence::Present), count(&|e| e.presence == Presence::Open));
+        match problem {
+            Some(w) => {
+                ctx.case(FAM, &key, "viol", serde_json::json!({"class": "", "what": w, "table": String::from_utf8_lossy(&p.stdout), "got": String::from_utf8_lossy(&c.imp.stdout), "shape": shape, "case": info}));
+                continue;
+            }
+            None => ctx.case(FAM, &key, "pass", serde_json::json!({"shape": shape, "case": info})),
+        }
+        match compare(&c, true) {
+            F::Agree => ctx.case("model", &key, "pass", info),
+            F::Skip(w) => ctx.case("model", "", "skip", serde_json::json!({"why": w.split(':').next().unwrap_or("").to_string()})),
+            F::Disagree(d) => ctx.case("model", &key, "fdis", serde_json::json!({"what": d, "case": info})),
+        }
+    }
+}
+
 pub fn check(ctx: &mut Ctx) {
     check_timeslice(ctx);
     check_int_boundaries(ctx);
+    check_post_agg(ctx);
     let n = ctx.budget(4000, 200000);
     for _ in 0..n {
         let mut r = ctx.rng.fork();
